@@ -8,7 +8,10 @@ written in the same file.  Correspondence: harness/cmd/inteng plans generated qu
 production planner, swaps the ClickHouse getter for a scripted upstream, runs the real chain (in a child
 process: a stage panic kills the process) and prints the chain as read off the planned structs, the
 input batches, the output and the oracle tables; the model (mismatches) and the specification oracle
-(spec_violations) are evaluated inside Coq over the implementation's observations.
+(spec_violations) are evaluated inside Coq over the implementation's observations.  Round 8: the aggregators of the query
+are read off a second parse of the query text; the planned aggregator stages and their order must be model/InternalEnginePlan.v
+plan_aggs of them, and the specification oracle runs over the chain the parsed query prescribes (ref_chain), not over the
+order the planner chose.
 """
 import binascii
 import json
@@ -825,6 +828,7 @@ def run_cases(ck, cases, label):
                   not aplan, "; ".join("%s: planned %s" % (byid[i]["query"], [st["k"] for st in byid[i]["chain"]]) for i in aplan[:3]))
     ah = ck.extra.setdefault("aggregator_plans", {"cases": 0, "vector_aggregation": 0, "inner_comparison_under_a_vector_aggregation": 0,
                                                   "of_those_sum_over_count_or_bytes_over_time": 0, "outer_comparison": 0, "range_comparison": 0, "unwrap_with_clause": 0})
+    ah["planned_otherwise_than_the_model"] = ah.get("planned_otherwise_than_the_model", 0) + len(aplan)
     for c in runnable:
         a = c.get("aggs") or {}
         ah["cases"] += 1
@@ -1138,5 +1142,7 @@ def run(ck):
     ap = ck.extra.get("aggregator_plans") or {}
     ck.obligation("the generator reaches comparisons written inside a vector aggregation whose threshold lies between a series of the range aggregation and the total of its group (%d cases, %d of them sum over count_over_time / bytes_over_time; %d inner comparisons under a vector aggregation in all)" % (
         ap.get("inner_comparison_splits_a_group", 0), ap.get("of_those_sum_over_count_or_bytes_over_time_", 0), ap.get("inner_comparison_under_a_vector_aggregation", 0)),
-        ck.replay is not None or ap.get("of_those_sum_over_count_or_bytes_over_time_", 0) >= ck.n(12, 120), "aggregator plans: %s" % ap)
+        # measured on the recorded output of the range-aggregation stage where the chain is planned as the model says: with chains
+        # planned otherwise (reported above) the measure does not apply
+        ck.replay is not None or ap.get("planned_otherwise_than_the_model", 0) > 0 or ap.get("of_those_sum_over_count_or_bytes_over_time_", 0) >= ck.n(12, 120), "aggregator plans: %s" % ap)
     ck.add_samples([{"query": c["query"], "in": c["in"], "limit": c["limit"], "out": c["out"]} for c in allcases if c.get("mode", "") != "fp" and nontrivial(c)][:3])
